@@ -110,5 +110,7 @@ var Controls = []Control{
 	{"C19", "hints emitted before descending", "hintdetail/hintdetail.go", `func getAllHintsInternal\(err error, hints \[\]string, seen map\[string\]struct\{\}\) \[\]string \{\n\tif c := errbase\.UnwrapOnce\(err\); c != nil \{\n\t\thints = getAllHintsInternal\(c, hints, seen\)\n\t\}\n(.*?)\treturn hints\n\}`, "func getAllHintsInternal(err error, hints []string, seen map[string]struct{}) []string {\n$1\tif c := errbase.UnwrapOnce(err); c != nil {\n\t\thints = getAllHintsInternal(c, hints, seen)\n\t}\n\treturn hints\n}", "R-ORDER"},
 	// C20
 	{"C20", "a part of the error is encoded", "grpc/middleware/server.go", `enc := errors\.EncodeError\(ctx, err\)`, `enc := errors.EncodeError(ctx, errors.UnwrapAll(err))`, "R-GRPC-FLOW"},
+	{"C20", "code invented for uncoded errors", "extgrpc/ext_grpc.go", `\treturn codes\.Unknown\n\}\n\n// it's an error\.`, "\treturn codes.Code(uint32(len(err.Error())) % 17)\n}\n\n// it's an error.", "R-CODE-GETTER"},
+	{"C11", "HTTP default replaced", "exthttp/ext_http.go", `\treturn defaultCode\n`, "\treturn 500\n", "R-CODE-GETTER"},
 	{"C20", "decoded error ignored", "grpc/middleware/client.go", `if reconstituted != nil \{\n\t\terr = reconstituted\n\t\}`, "if reconstituted != nil {\n\t\t_ = reconstituted\n\t}", "R-GRPC-FLOW"},
 }
